@@ -27,11 +27,14 @@ type edit struct {
 	seq        int
 }
 
+// siteCounter numbers the static scheduling points of one instrumentation run.
+var siteCounter int
+
 const importPath = "github.com/cloudflare/circl/internal/verifmc/sched"
 
 // instrument rewrites one file; if only is non-empty, only the functions /
 // methods with those names get scheduling points (sync/go rewrites stay global).
-func instrument(path string, only map[string]bool) ([]byte, int, error) {
+func instrument(path string, only map[string]bool, hook string) ([]byte, int, error) {
 	src, err := os.ReadFile(path)
 	if err != nil {
 		return nil, 0, err
@@ -60,7 +63,8 @@ func instrument(path string, only map[string]bool) ([]byte, int, error) {
 			case *ast.EmptyStmt, *ast.CaseClause, *ast.CommClause:
 				continue
 			}
-			add(off(s.Pos()), off(s.Pos()), "verifsched.Point(); ")
+			siteCounter++
+			add(off(s.Pos()), off(s.Pos()), fmt.Sprintf("verifsched.%sAt(%d); ", hook, siteCounter))
 			points++
 		}
 	}
@@ -121,8 +125,113 @@ func instrument(path string, only map[string]bool) ([]byte, int, error) {
 	return out, points, nil
 }
 
+// autoSelect scans every package directory below root and returns, per file, the functions that
+// mention a package-level variable of their package (candidates for hidden shared state: tables,
+// scratch buffers, caches). Over-approximation is harmless (more points), shadowing is ignored.
+func autoSelect(root string) map[string]map[string]bool {
+	sel := map[string]map[string]bool{}
+	skipDir := func(p string) bool {
+		b := filepath.Base(p)
+		return b == "testdata" || b == "templates" || b == "asm" || b == "vendor" || strings.HasPrefix(b, ".") ||
+			strings.Contains(p, "/internal/test") || strings.Contains(p, "/internal/verif")
+	}
+	_ = filepath.Walk(root, func(dir string, info os.FileInfo, err error) error {
+		if err != nil || !info.IsDir() {
+			return nil
+		}
+		if dir != root && skipDir(dir) {
+			return filepath.SkipDir
+		}
+		ents, _ := os.ReadDir(dir)
+		fset := token.NewFileSet()
+		type pf struct {
+			path string
+			f    *ast.File
+		}
+		var files []pf
+		for _, e := range ents {
+			n := e.Name()
+			if e.IsDir() || !strings.HasSuffix(n, ".go") || strings.HasSuffix(n, "_test.go") || strings.HasPrefix(n, "zz_verif") {
+				continue
+			}
+			f, err := parser.ParseFile(fset, filepath.Join(dir, n), nil, parser.ParseComments)
+			if err != nil || f.Name.Name == "main" {
+				continue
+			}
+			ignore := false
+			for _, cg := range f.Comments {
+				for _, c := range cg.List {
+					if strings.HasPrefix(c.Text, "//go:build") && strings.Contains(c.Text, "ignore") {
+						ignore = true
+					}
+				}
+			}
+			if !ignore {
+				files = append(files, pf{filepath.Join(dir, n), f})
+			}
+		}
+		vars := map[string]bool{}
+		for _, x := range files {
+			for _, d := range x.f.Decls {
+				gd, ok := d.(*ast.GenDecl)
+				if !ok || gd.Tok != token.VAR {
+					continue
+				}
+				for _, sp := range gd.Specs {
+					vs := sp.(*ast.ValueSpec)
+					isErr := false
+					for _, v := range vs.Values {
+						if ce, ok := v.(*ast.CallExpr); ok {
+							if se, ok := ce.Fun.(*ast.SelectorExpr); ok {
+								if id, ok := se.X.(*ast.Ident); ok && (id.Name == "errors" || id.Name == "fmt") {
+									isErr = true
+								}
+							}
+						}
+					}
+					if isErr {
+						continue
+					}
+					for _, nm := range vs.Names {
+						if nm.Name != "_" {
+							vars[nm.Name] = true
+						}
+					}
+				}
+			}
+		}
+		if len(vars) == 0 {
+			return nil
+		}
+		for _, x := range files {
+			for _, d := range x.f.Decls {
+				fd, ok := d.(*ast.FuncDecl)
+				if !ok || fd.Body == nil || fd.Name.Name == "init" {
+					continue
+				}
+				uses := false
+				ast.Inspect(fd.Body, func(n ast.Node) bool {
+					if id, ok := n.(*ast.Ident); ok && vars[id.Name] {
+						uses = true
+					}
+					return !uses
+				})
+				if uses {
+					if sel[x.path] == nil {
+						sel[x.path] = map[string]bool{}
+					}
+					sel[x.path][fd.Name.Name] = true
+				}
+			}
+		}
+		return nil
+	})
+	return sel
+}
+
 func main() {
 	outDir := flag.String("out", "", "output directory")
+	autoRoot := flag.String("auto", "", "repository root: additionally instrument (with PointAuto) every function that mentions a package-level variable")
 	flag.Parse()
 	if *outDir == "" {
 		fmt.Fprintln(os.Stderr, "usage: instr -out DIR file.go...")
@@ -133,6 +242,7 @@ func main() {
 	}
 	res := map[string]string{}
 	total := 0
+	explicit := map[string]bool{}
 	for i, p := range flag.Args() {
 		var only map[string]bool
 		if k := strings.Index(p, "#"); k >= 0 {
@@ -146,7 +256,8 @@ func main() {
 			fmt.Fprintf(os.Stderr, "instr: skipping %s: %v\n", p, err)
 			continue
 		}
-		b, n, err := instrument(p, only)
+		explicit[p] = true
+		b, n, err := instrument(p, only, "Point")
 		if err != nil {
 			fmt.Fprintf(os.Stderr, "instr: %s: %v\n", p, err)
 			os.Exit(1)
@@ -159,5 +270,31 @@ func main() {
 		}
 		res[p] = o
 	}
-	json.NewEncoder(os.Stdout).Encode(map[string]interface{}{"files": res, "points": total})
+	autoFiles, autoPoints := 0, 0
+	if *autoRoot != "" {
+		sel := autoSelect(*autoRoot)
+		paths := make([]string, 0, len(sel))
+		for p := range sel {
+			paths = append(paths, p)
+		}
+		sort.Strings(paths)
+		for i, p := range paths {
+			if explicit[p] {
+				continue
+			}
+			b, n, err := instrument(p, sel[p], "PointAuto")
+			if err != nil || n == 0 {
+				continue
+			}
+			name := fmt.Sprintf("a%04d_%s", i, strings.ReplaceAll(filepath.Base(p), ".go", "")) + ".go"
+			o := filepath.Join(*outDir, name)
+			if err := os.WriteFile(o, b, 0o644); err != nil {
+				panic(err)
+			}
+			res[p] = o
+			autoFiles++
+			autoPoints += n
+		}
+	}
+	json.NewEncoder(os.Stdout).Encode(map[string]interface{}{"files": res, "points": total, "auto_files": autoFiles, "auto_points": autoPoints})
 }
